@@ -186,10 +186,9 @@ def eval_ab(case):
     name = case['arch']
     a = ARCH[name]
     spec = dict(a['spec'], faults=case['faults'])
-    import subprocess
     try:
         ra, rb, peer_a, peer_b, eof = abcheck.run_both(spec, ['-n'] + list(a['argv']), timeout_opt=1)
-    except subprocess.TimeoutExpired:
+    except drive.Inconclusive:
         # wall-clock budget hit: inconclusive here (hangs are decided by engine A's virtual clock, deterministically)
         return mkres(case, nt=False, classes=['engine-B', 'wall-clock-budget-hit-inconclusive'], fails=[])
     fails = []
@@ -198,13 +197,13 @@ def eval_ab(case):
         if (ra.code == 255) != (rb.code == 255):
             raise RuntimeError('engines disagree on crashing: A %r B %r' % (ra.code, rb.code))
     else:
-        abcheck.assert_agree(ra, rb, 'C09 %s %r' % (name, case['faults']))
+        agree = abcheck.assert_agree(ra, rb, 'C09 %s %r' % (name, case['faults']))
     if rb.code not in (0, 1, 2, 3):
         fails.append(['undocumented-exit-status-%d-real-process' % rb.code, 'arch %s faults %r' % (name, case['faults'])])
     expect_eof = len([c for c in peer_b.conns if not c.reset])     # a connection the server reset itself has no EOF to observe
     if len(eof) < expect_eof:
         fails.append(['connection-not-closed-at-process-exit', 'arch %s faults %r: server saw EOF on %d of %d connections' % (name, case['faults'], len(eof), expect_eof)])
-    return mkres(case, nt=True, classes=['engine-B', 'arch:' + name], fails=fails)
+    return mkres(case, nt=True, classes=['engine-B', 'arch:' + name] + ([] if locals().get('agree', True) else ['AB-disagree']), fails=fails)
 
 
 def eval_case(case):
